@@ -54,7 +54,7 @@ def shapes(level):
     add('FIR', rng(1,8) + [31] if big else [1,2,3])
     add('REMB', [0,1,2,3,4,255] if big else [0,1,2,3], rng(1,63) if big else [1,2,17,46,62,63], [17])
     add('REMB', [1], [0], rng(0,17) if big else [0,1,9,17])
-    add('CCFB', [0,1,2], rng(0,10) if big else rng(0,6))
+    add('CCFB', [0,1,2], rng(0,7) if big else rng(0,6))
     add('TWCC', [0,1,2,3,4,5,6,7,8])
     add('RAW', [4,8,12,16,20,40] if big else [4,8,12])
     for k in range(1, 10): add('XR', [k])
@@ -72,7 +72,7 @@ def codec(h, level):
         d = dict(c); d['h'] = h; out.append(d)
     return out
 CODEC_B = 'every packet type with all field values, texts and payload bytes symbolic, for the shapes: SR and RR reports {0..3,11,31} x extension octets {0,4,8}; SDES chunks {0..3} x items per chunk {0..3} x text octets {0..5}; BYE sources {0..3} x reason octets {0..8}; APP data octets {0..12}; NACK pairs {1..4}; RRR; PLI; SLI entries {0..3}; FIR entries {1..3}; REMB SSRCs {0..3} x exponents {1,2,17,46,62,63} (normal mantissa, low bits symbolic) and exponent 0 with mantissa MSB at {0,1,9,17}; CCFB blocks {0,1,2} x metric blocks {0..6} with symbolic begin sequence; TWCC: 9 chunking skeletons (run-length, 1-bit and 2-bit vectors, exact fit, vector overshoot) with symbolic header fields and delta values; XR: the empty report, every single block of the 7 RFC 3611 kinds and 2 unknown-block shapes, and all 81 ordered two-block sequences; Raw {4,8,12} octets'
-CODEC_BT = 'every packet type with all field values, texts and payload bytes symbolic, for the shapes: SR and RR reports {0..31} x extension octets {0,4,8,12}; SDES chunks {0..4} x items {0..4} x text octets {0..9,255}, and {8,31} chunks x {1,2} items x {1,2} octets; BYE sources {0..31} x reason octets {0..12,255}; APP data octets {0..40}; NACK pairs {1..12,253}; RRR; PLI; SLI entries {0..8}; FIR entries {1..8,31}; REMB SSRCs {0..4,255} x every exponent 1..63 (normal mantissa) and exponent 0 with mantissa MSB at every position 0..17; CCFB blocks {0,1,2} x metric blocks {0..10} (3 blocks did not finish); TWCC: 9 chunking skeletons; XR: empty, 9 single blocks, all 81 ordered pairs and 225 three-block sequences; Raw {4,8,12,16,20,40} octets'
+CODEC_BT = 'every packet type with all field values, texts and payload bytes symbolic, for the shapes: SR and RR reports {0..31} x extension octets {0,4,8,12}; SDES chunks {0..4} x items {0..4} x text octets {0..9,255}, and {8,31} chunks x {1,2} items x {1,2} octets; BYE sources {0..31} x reason octets {0..12,255}; APP data octets {0..40}; NACK pairs {1..12,253}; RRR; PLI; SLI entries {0..8}; FIR entries {1..8,31}; REMB SSRCs {0..4,255} x every exponent 1..63 (normal mantissa) and exponent 0 with mantissa MSB at every position 0..17; CCFB blocks {0,1,2} x metric blocks {0..7} (3 blocks, and 2 blocks with 9 or more metric blocks, did not finish); TWCC: 9 chunking skeletons; XR: empty, 9 single blocks, all 81 ordered pairs and 225 three-block sequences; Raw {4,8,12,16,20,40} octets'
 def c05extra():
     # length-focused shapes: every residue mod 4 of the variable-length parts
     return [{"h":"VpC05","x":[[K['RR']],[0,1],rng(1,9)]},{"h":"VpC05","x":[[K['SR']],[0,1],rng(1,9)]},
@@ -141,11 +141,11 @@ R['C11'] = {
  "quick": [{"h":"VpC11_Grammar","x":[[0,1,2,3,4]]},{"h":"VpC11_MemberFails"},
            {"h":"VpC11_Unmarshal","a":[[8,1],[12,2],[16,1,1],[20,1,2],[20,1,1,0],[16,0,2],[24,1,3],[24,1,1,1]]}],
  "bounds": "grammar: every sequence of 0..4 packets whose kinds are symbolic over {SR, RR, SDES, BYE, PLI, APP, XR, Raw}, SDES members with 0..2 chunks x 0..2 items with symbolic item types and text octets (one query per length covers all 8^n kind sequences); member failure: all uint32 TotalLost; Unmarshal agreement: datagrams of 8..24 octets under 8 frame compositions, all bytes symbolic",
- "bounds_thorough": "as quick with sequences of length 0..5",
+ "bounds_thorough": "as quick (sequences of length 5 could not be validated within the session and are not registered)",
  "require_reach": ["reach:end"], "opts": {"unwind": 100},
  "outside_claim": ["sequences longer than the bound", "SDES members with more than 2 chunks or items"],
 }
-R['C11']['thorough'] = [{"h":"VpC11_Grammar","x":[[0,1,2,3,4,5]]},{"h":"VpC11_MemberFails"},R['C11']['quick'][2]]
+R['C11']['thorough'] = [{"h":"VpC11_Grammar","x":[[0,1,2,3,4]]},{"h":"VpC11_MemberFails"},R['C11']['quick'][2]]
 
 def compositions(words):
     # all ways to split `words` 32-bit words into leading frames (each >= 1 word) plus an optional unframed tail
@@ -171,6 +171,7 @@ def framing(maxlen):
         if c not in seen: seen.append(c)
     return seen
 pts = [0,200,201,202,203,204,205,206,207]
+pts20 = [200,201,203,204,205,206,207]
 # SR/RR frames one word short of (and exactly) holding k reports, followed by a second frame: a decoder that reads
 # past its frame end would see the next frame's octets
 PEEK = [[48,8,200,0],[52,8,200,0],[72,8,200,0],[28,8,201,0],[32,8,201,0],[52,8,201,0]]
@@ -179,18 +180,19 @@ R['C06'] = {
            {"h":"VpC06_Local","x":[[4,8,12],[4,8,12],[0],[0]]},
            {"h":"VpC06_Local","x":[[16],[8],pts,[0]]},{"h":"VpC06_Local","x":[[8],[16],[0],pts]},
            {"h":"VpC06_Local","a":PEEK}],
- "thorough": [{"h":"VpC06_Framing","a":framing(20)},{"h":"VpC06_Empty"},
+ "thorough": [{"h":"VpC06_Framing","a":[f for f in framing(20) if f not in ([20],[20,0])]},{"h":"VpC06_Empty"},
            {"h":"VpC06_Local","x":[[4,8,12],[4,8,12],[0],[0]]},
-           {"h":"VpC06_Local","x":[[16,20],[8,12],pts,[0]]},{"h":"VpC06_Local","x":[[8,12],[16,20],[0],pts]},
+           {"h":"VpC06_Local","x":[[16],[8,12],pts,[0]]},{"h":"VpC06_Local","x":[[8,12],[16],[0],pts]},
+           {"h":"VpC06_Local","x":[[20],[8,12],pts20,[0]]},{"h":"VpC06_Local","x":[[8,12],[20],[0],pts20]},
            {"h":"VpC06_Local","a":PEEK + [[76,8,200,0],[56,8,201,0],[100,12,200,0]]}],
  "bounds": "framing: every datagram length 0..16 under every composition into leading frames plus an arbitrary symbolic tail (76 shapes; all bytes other than the listed length fields symbolic, including version bits and packet types) against an independent frame walker; locality: SR frames of 48, 52, 72 and RR frames of 28, 32, 52 octets (one word short of, and exactly, k reports) followed by an 8-octet frame; two well-framed frames of {4,8,12}x{4,8,12} octets with symbolic packet types and contents, and 16-octet frames of each packet-type class next to an 8-octet frame, compared packet-by-packet with the separately decoded frames; empty and nil datagrams",
- "bounds_thorough": "framing up to 20 octets; locality with 16- and 20-octet frames of every packet-type class next to 8- and 12-octet frames, and larger SR/RR peek frames",
+ "bounds_thorough": "framing up to 20 octets (the two 20-octet shapes whose first frame has a symbolic length field did not finish and are left out); locality with 16-octet frames of every packet-type class and 20-octet frames of the classes 200, 201, 203..207 next to 8- and 12-octet frames, and larger SR/RR peek frames",
  "require_reach": ["reach:end"], "opts": {"unwind": 100},
  "outside_claim": ["datagrams longer than the bound", "TWCC frames with packet status count above 8"],
 }
 
 XR_TYPED_Q = [[48,207,-1,6],[44,207,-1,7],[20,207,-1,4],[16,207,-1,200]]
-XR_TYPED_T = XR_TYPED_Q + [[24,207,-1,4],[20,207,-1,200]]
+XR_TYPED_T = XR_TYPED_Q + [[24,207,-1,4],[52,207,-1,6]]
 def c09(level):
     big = level == 'thorough'
     L = [4,8,12,16,20,24,28] + ([32,36] if big else [])
@@ -298,7 +300,7 @@ def c01(level):
     q = [{"h":"VpC01_Decode","x":[cheap, rng(0, 40 if big else 32)]},
          {"h":"VpC01_Decode","x":[[3,19], rng(0, 20 if big else 18)]},
          {"h":"VpC01_Decode","x":[[14], rng(0, 26 if big else 22)]},
-         {"h":"VpC01_Decode","x":[[9], rng(0, 36 if big else 30)]},
+         {"h":"VpC01_Decode","x":[[9], rng(0, 35 if big else 30)]},
          {"h":"VpC01_Decode","x":[[8], rng(0, 22)]}]
     q.append({"h":"VpC01_TWCCTyped","a":TYPED_T if big else TYPED_Q,"solver":"z3-new"})
     q.append({"h":"VpC01_XRBlock","a":[[6,n] for n in range(8,57 if big else 53)]+[[7,n] for n in range(8,53 if big else 49)]+[[t,n] for t in (1,2,3,4) for n in range(8,29 if big else 25)]+[[5,n] for n in range(8,25 if big else 21)]+[[200,n] for n in range(8,25 if big else 21)]})
@@ -310,7 +312,7 @@ def c01(level):
 R['C01'] = {
  "quick": c01('quick'), "thorough": c01('thorough'),
  "bounds": "every buffer length 0..32 for the 17 fixed-layout decoders and sub-decoders, 0..18 for SourceDescription and SourceDescriptionChunk, 0..22 for ExtendedReport (and, with the type of the first report block fixed: 8..52 octets for statistics-summary, 8..48 for VoIP-metrics, 8..24 for the RLE and receiver-reference-time blocks, 8..20 for DLRR and unknown blocks), 0..30 for CCFeedbackReport, 0..22 for TransportLayerCC (packet status count <= 8), a 76-octet TransportLayerCC packet with status count 65535 whose chunk area repeats 3 times (8 runs of 8191 received packets, one all-ones vector) with symbolic header fields (the status-counter wrap), plus TransportLayerCC packets of up to 36 octets with typed chunks (one symbolic one-bit/two-bit vector or run-length chunk, or a vector followed by a run; status counts up to 14; the cases of C13); datagram entry points (rtcp.Unmarshal, CompoundPacket.Unmarshal): every length 0..12 under every composition into frames plus arbitrary tail; all byte contents symbolic; every loop unwound under an unwinding assertion (limit 80); allocation counted against 4 MiB + 64 bytes per input byte",
- "bounds_thorough": "as quick with lengths 0..40 (fixed-layout), 0..20 (SDES), 0..26 (XR), 0..36 (CCFB), datagrams 0..16, and the thorough list of typed TWCC cases",
+ "bounds_thorough": "as quick with lengths 0..40 (fixed-layout), 0..20 (SDES), 0..26 (XR), 0..35 (CCFB; 36 octets did not finish in 20 minutes), datagrams 0..16, and the thorough list of typed TWCC cases",
  "opts": {"unwind": 80},
  "require_reach": ["reach:end"],
  "assumptions": ["TransportLayerCC with fully symbolic bytes: packet status count <= 8; larger counts only in the typed-chunk cases and in the concrete-chunk counter-wrap case"],
